@@ -90,6 +90,7 @@ def check_svd(case):
         return tuple(t)
 
     rec_tags = (("rep_nonzero",) if c["rep"] else ()) + (("near_repeated_nonzero",) if c["near"] else ())
+    amp_rec = 1.0 if (c["rep"] or c["near"]) else min(amp, 1.0 / NEAR_REL)
     if c["near"]:
         out.label("near_repeated_nonzero_sv")
     # ---- full decomposition
@@ -107,7 +108,9 @@ def check_svd(case):
             out.le(site + ":U orthonormal", ref.unitarity_defect(Uf), C_ORTH * (m + n) * U_ * amp, tags=orth_tags("U", m))
             out.le(site + ":V orthonormal", ref.unitarity_defect(Vf), C_ORTH * (m + n) * U_ * amp, tags=orth_tags("V", n))
             rec = ref.qmm(ref.qmm(Uf, ref.diag_q(s, m, n)), ref.conjT(Vf))
-            out.le(site + ":A = U S V^H", ref.fro(A - rec), C_REC * (m + n) * U_ * an + 1e-300 * (an == 0),
+            # stated tolerance: rounding times the conditioning sigma_1/gap of the singular subspaces, which is <= 20 outside
+            # the near-repeated class (relative gap < 0.05) that known finding KF-C05-2 covers
+            out.le(site + ":A = U S V^H", ref.fro(A - rec), C_REC * (m + n) * U_ * an * amp_rec + 1e-300 * (an == 0),
                    tags=rec_tags)
     # ---- truncated decomposition
     ok, r = out.call("classical_qsvd", L.qsvd.classical_qsvd, Aq, R)
@@ -126,7 +129,7 @@ def check_svd(case):
             rec = ref.qmm(ref.scale_cols(Uf, s), ref.conjT(Vf))
             err2 = ref.fro(A - rec) ** 2
             opt2 = float(np.sum(sref[R:] ** 2))
-            slack = 1e3 * (m + n) * U_ * an * an + 1e-300 * (an == 0)
+            slack = 1e3 * (m + n) * U_ * an * an * amp_rec + 1e-300 * (an == 0)
             rt = rec_tags
             out.le(site + ":Eckart-Young (error not above optimum)", err2, opt2 * (1 + 1e-9) + slack,
                    f"err^2={err2:.6e} opt^2={opt2:.6e} R={R}", tags=rt)
